@@ -22,7 +22,7 @@ ASSUMPTIONS = [
     "Modbus/TCP has no checksum: a same-length corrupted remainder may legitimately be accepted there (the property "
     "restricts clause (b) to the checksummed framings)",
 ]
-MUST = ["reassembled_after_corrupt_answer", "reassembled_rtu", "reassembled_tcp", "reassembled_aa55", "partial_branch", "leftover_cleared", "late_second_piece",
+MUST = ["reassembled_while_another_caller_queued", "reassembled_after_corrupt_answer", "reassembled_rtu", "reassembled_tcp", "reassembled_aa55", "partial_branch", "leftover_cleared", "late_second_piece",
         "wrong_second_piece_refused"]
 EXHAUSTIVE = {"quick": False, "thorough": True}
 EPS = 1e-6
@@ -30,12 +30,19 @@ KINDS = ["exact", "plus1", "minus1", "corrupt", "other_answer", "other_remainder
 HEADER = {"rtu": 5, "tcp": 9, "aa55": 9}
 
 
+def aa55_payload(req, n):
+    """register payload full of the frame-header byte pair AA 55 (every even split lands in front of one)"""
+    return (b"\xaa\x55" * req["count"])[:2 * req["count"]]
+
+
 class FragPeer(ScriptedPeer):
     """Transmission 1 answered in two scripted pieces; transmission 2 per `second_tx`; later ones validly."""
 
     def __init__(self, sc):
         super().__init__(engine.HOST, sc["framing"], [], sc["T"], after="now",
-                         aa55_payload=bytes((i * 7 + 1) & 0xFF for i in range(sc.get("aa55_len", 40))))
+                         payload_fn=aa55_payload if sc.get("payload") == "aa55" else default_payload,
+                         aa55_payload=(b"\xaa\x55" * 128)[:sc.get("aa55_len", 40)] if sc.get("payload") == "aa55" else
+                         bytes((i * 7 + 1) & 0xFF for i in range(sc.get("aa55_len", 40))))
         self.sc = sc
         self.v1 = None
         self.other = None
@@ -162,6 +169,32 @@ def run_case(sc, part):
     return vs
 
 
+def concurrent_case(framing, ka, T, count, k, d, b_start, part):
+    """caller A's answer arrives in two pieces (second after d); caller B enters while A waits for the remainder: A must still be
+    served from its two pieces without retransmission, then B."""
+    transport = "tcp" if framing == "tcp" else "udp"
+    sc = {"transport": transport, "framing": framing, "keep_alive": ka, "T": T, "R": 2,
+          "by_reg": {300: [["frag2", k, d]], 500: ["now"]}, "after": "now",
+          "tasks": [{"start": 0.0, "steps": [["read", 300, count]]}, {"start": b_start, "steps": [["read", 500, 2]]}]}
+    run = engine.run_scenario(sc, quiesce=False)
+    part.evaluations += 1
+    part.see(f"concurrent|{framing}|{ka}|{k}|{d}|{b_start}")
+    vs = []
+    if run.stop:
+        vs.append((f"C07/{framing}/hang", run.stop))
+    else:
+        a = [c for c in run.calls if c["step"][1] == 300][0]
+        atx = [e for e in run.events if e[1] == "tx" and int.from_bytes(e[4][(8 if framing == "tcp" else 2):(10 if framing == "tcp" else 4)], "big") == 300]
+        if a["outcome"] != "ok" or len(atx) != 1:
+            vs.append((f"C07/{framing}/exact-fragments-not-reassembled",
+                       f"two-piece answer (split {k}, second piece after {d}) with another caller entering at {b_start}: caller A ended "
+                       f"{a['outcome']} after {len(atx)} transmissions"))
+        else:
+            part.count("reassembled_while_another_caller_queued")
+    for key, msg in vs:
+        part.violate(key, msg, {"concurrent": True, "args": [framing, ka, T, count, k, d, b_start]})
+
+
 def frame_len(framing, count, aa55_len):
     return {"rtu": 7 + 2 * count, "tcp": 9 + 2 * count, "aa55": 9 + aa55_len}[framing]
 
@@ -188,6 +221,13 @@ def run_shard(spec):
     part = Part()
     f = spec["framing"]
     T = 1
+    if f != "aa55" and spec["counts"] and spec["counts"][0] in (1, 62):
+        for count in (2, 10):
+            L = frame_len(f, count, 0)
+            for k in range(HEADER[f], L):
+                for d in (0.3, 0.6):
+                    for b_start in (0.0, 0.1, d / 2, d - 0.01):
+                        concurrent_case(f, spec["ka"], T, count, k, d, b_start, part)
     for count in spec["counts"]:
         L = frame_len(f, count, spec["aa55_len"])
         splits = sorted(set(list(range(1, L, spec["stride"])) + [1, 2, 3, 4, 5, 6, 8, 9, 10, L - 3, L - 2, L - 1]))
@@ -198,6 +238,12 @@ def run_shard(spec):
                     for second_tx in (("now", "remainder") if (kind == "none" or delay > 1) else ("now",)):
                         sc = scenario(f, spec["ka"], T, 2, count, k, kind, delay, second_tx, spec["aa55_len"])
                         run_case(sc, part)
+            if k % 2 == 1 or k in (HEADER[f], L - 2):
+                # payload made of AA 55 pairs: the remainder itself starts with the frame-header bytes
+                for delay in (0.0, 0.5):
+                    sc = scenario(f, spec["ka"], T, 2, count, k, "exact", delay, "now", spec["aa55_len"])
+                    sc["payload"] = "aa55"
+                    run_case(sc, part)
             if f != "tcp" and (k in (HEADER[f], HEADER[f] + 1, L - 1) or k % 7 == 0):
                 # the fragmented answer belongs to the RETRANSMISSION that follows a corrupted answer delivered at T/2
                 for delay in (0.3, 0.7, 0.95):
@@ -207,5 +253,8 @@ def run_shard(spec):
 
 def replay(case):
     part = Part()
+    if case.get("concurrent"):
+        concurrent_case(*case["args"], part)
+        return [{"key": v["key"], "msg": v["msg"]} for v in part.violations]
     vs = run_case(case["scenario"], part)
     return [{"key": k, "msg": m} for k, m in vs]
